@@ -36,7 +36,7 @@ class Obligation:
 class Ctx:
     """One symbolic path.  Re-created (and the function re-executed) for every decision prefix."""
 
-    BRANCH_TIMEOUT_MS = 1500
+    BRANCH_TIMEOUT_MS = int(__import__("os").environ.get("PYVC_BRANCH_MS", "60"))
 
     def __init__(self, prefix=(), func="?"):
         self.prefix = list(prefix)
